@@ -68,7 +68,9 @@ func runUnblock(d Desc) mon.Result {
 	} else {
 		l.killPeer()
 	}
-	released := cs.waitReturn(before, 5*time.Second)
+	// the read that was blocked must return, and so must the one issued after it (the first may just
+	// carry residual bytes such as the ssh client's parting message)
+	released := cs.waitReturn(before+1, 5*time.Second)
 	took := time.Since(ta)
 	if !released || !closeReturned {
 		if mon.LoadedSince(ta) {
